@@ -3,6 +3,7 @@
 __all__ = ['CSSParser']
 
 import codecs
+import contextlib
 
 import cssutils
 from cssutils import css
@@ -54,8 +55,6 @@ class CSSParser:
         if loglevel is not None:
             cssutils.log.setLevel(loglevel)
 
-        # remember global setting
-        self.__globalRaising = cssutils.log.raiseExceptions
         if raiseExceptions:
             self.__parseRaising = raiseExceptions
         else:
@@ -67,14 +66,18 @@ class CSSParser:
 
         self._validate = validate
 
-    def __parseSetting(self, parse):
+    @contextlib.contextmanager
+    def __parseSetting(self):
         """during parse exceptions may be handled differently depending on
-        init parameter ``raiseExceptions``
+        init parameter ``raiseExceptions``; the global setting found when
+        the parse starts is put back when it ends, however it ends
         """
-        if parse:
-            cssutils.log.raiseExceptions = self.__parseRaising
-        else:
-            cssutils.log.raiseExceptions = self.__globalRaising
+        globalRaising = cssutils.log.raiseExceptions
+        cssutils.log.raiseExceptions = self.__parseRaising
+        try:
+            yield
+        finally:
+            cssutils.log.raiseExceptions = globalRaising
 
     def parseStyle(self, cssText, encoding='utf-8', validate=None):
         """Parse given `cssText` which is assumed to be the content of
@@ -91,14 +94,13 @@ class CSSParser:
         :returns:
             :class:`~cssutils.css.CSSStyleDeclaration`
         """
-        self.__parseSetting(True)
-        if isinstance(cssText, bytes):
-            # TODO: use codecs.getdecoder('css') here?
-            cssText = cssText.decode(encoding)
-        if validate is None:
-            validate = self._validate
-        style = css.CSSStyleDeclaration(cssText, validating=validate)
-        self.__parseSetting(False)
+        with self.__parseSetting():
+            if isinstance(cssText, bytes):
+                # TODO: use codecs.getdecoder('css') here?
+                cssText = cssText.decode(encoding)
+            if validate is None:
+                validate = self._validate
+            style = css.CSSStyleDeclaration(cssText, validating=validate)
         return style
 
     def parseString(
@@ -130,27 +132,26 @@ class CSSParser:
         :returns:
             :class:`~cssutils.css.CSSStyleSheet`.
         """
-        self.__parseSetting(True)
-        # TODO: py3 needs bytes here!
-        if isinstance(cssText, bytes):
-            cssText = codecs.getdecoder('css')(cssText, encoding=encoding)[0]
+        with self.__parseSetting():
+            # TODO: py3 needs bytes here!
+            if isinstance(cssText, bytes):
+                cssText = codecs.getdecoder('css')(cssText, encoding=encoding)[0]
 
-        if validate is None:
-            validate = self._validate
+            if validate is None:
+                validate = self._validate
 
-        sheet = cssutils.css.CSSStyleSheet(
-            href=href,
-            media=cssutils.stylesheets.MediaList(media),
-            title=title,
-            validating=validate,
-        )
-        sheet._setFetcher(self.__fetcher)
-        # tokenizing this ways closes open constructs and adds EOF
-        sheet._setCssTextWithEncodingOverride(
-            self.__tokenizer.tokenize(cssText, fullsheet=True),
-            encodingOverride=encoding,
-        )
-        self.__parseSetting(False)
+            sheet = cssutils.css.CSSStyleSheet(
+                href=href,
+                media=cssutils.stylesheets.MediaList(media),
+                title=title,
+                validating=validate,
+            )
+            sheet._setFetcher(self.__fetcher)
+            # tokenizing this ways closes open constructs and adds EOF
+            sheet._setCssTextWithEncodingOverride(
+                self.__tokenizer.tokenize(cssText, fullsheet=True),
+                encodingOverride=encoding,
+            )
         return sheet
 
     def parseFile(
